@@ -81,6 +81,7 @@ func runPerm(r *lib.Run, op string, c Ctx, t T) {
 		variants[i] = shuffled(rng, t)
 	}
 	state.Config.Build.Config, state.Config.Build.FallbackConfig = c.Config, c.Fallback
+	state.Config.Build.HashCheckers = c.HashCheckers
 	setEnviron(c, t)
 	for i := range variants {
 		wg.Add(1)
@@ -127,6 +128,7 @@ func runRehash(r *lib.Run, op string, c Ctx, t T) {
 	msg := lib.Safely(func() string {
 		bt := buildTarget(t)
 		state.Config.Build.Config, state.Config.Build.FallbackConfig = c.Config, c.Fallback
+		state.Config.Build.HashCheckers = c.HashCheckers
 		setEnviron(c, t)
 		build.RuleHash(state, bt, false, false) // the pre-build hash is memoised first, as in a build
 		h1 = build.RuleHash(state, bt, false, true)
@@ -153,6 +155,7 @@ func mainC07() {
 	defer r.Finish()
 	r.Rule = "perm: the target has >= 3 entries in map-typed fields / dependencies; rehash: the target declares hashes; distinct by op line"
 	state = core.NewDefaultBuildState()
+	probeSpec()
 	if ops := r.ReplayOps(); ops != nil {
 		for _, op := range ops {
 			runOp(r, op)
